@@ -6,6 +6,7 @@ CONSTANTS
   Vcpus = {1}
   Roms = {2, 3, 5, 6, 7, 9, 11}
   Bases = {"zero"}
+  Metas = {0, 1, 2}
 SPECIFICATION Spec
 INVARIANTS C04_OrderRomSectionsVmsas C04_AcceptedHaveMandatory Emit
 CHECK_DEADLOCK FALSE
